@@ -117,7 +117,7 @@ func lexSpec(src string) ([]tok, error) {
 			toks = append(toks, tok{"int", fmt.Sprintf("%d", r[0])})
 			i = j + 1
 		default:
-			ops := []string{"<==>", "==>", "::", "&&", "||", "==", "!=", "<=", ">=", "<<", ">>", "&^", "+", "-", "*", "/", "%", "<", ">", "!", "&", "|", "^", "(", ")", "[", "]", ",", ".", ":", "{", "}"}
+			ops := []string{"...", "<==>", "==>", "::", "&&", "||", "==", "!=", "<=", ">=", "<<", ">>", "&^", "+", "-", "*", "/", "%", "<", ">", "!", "&", "|", "^", "(", ")", "[", "]", ",", ".", ":", "{", "}"}
 			matched := false
 			for _, op := range ops {
 				if strings.HasPrefix(src[i:], op) {
@@ -293,9 +293,22 @@ func (p *sparser) parsePostfix(x *SExpr) *SExpr {
 			x = &SExpr{Kind: "sel", Name: n.s, Args: []*SExpr{x}}
 		case p.accept("("):
 			args := []*SExpr{x}
+			ellipsis := false
 			if !p.accept(")") {
 				for {
 					args = append(args, p.parseExpr(0))
+					// f(xs...): the slice is passed as the variadic parameter
+					if p.peek().kind == "op" && p.peek().s == "..." {
+						p.next()
+						ellipsis = true
+					} else if p.peek().kind == "op" && p.peek().s == "." {
+						save := p.p
+						if p.accept(".") && p.accept(".") && p.accept(".") {
+							ellipsis = true
+						} else {
+							p.p = save
+						}
+					}
 					if p.accept(")") {
 						break
 					}
@@ -303,6 +316,9 @@ func (p *sparser) parsePostfix(x *SExpr) *SExpr {
 				}
 			}
 			x = &SExpr{Kind: "call", Args: args}
+			if ellipsis {
+				x.Name = "..."
+			}
 		case p.accept("["):
 			var lo, hi *SExpr
 			if p.peek().kind == "op" && p.peek().s == ":" {
@@ -387,6 +403,7 @@ type FuncContract struct {
 }
 
 type GhostFunc struct {
+	PkgPath string // package whose contract file defines it (its unexported identifiers are visible in the body)
 	Name   string
 	Params []QVar
 	Ret    string
@@ -421,6 +438,7 @@ type Contracts struct {
 	Files   []string
 	GhostFields map[string]*GhostField
 	TypeInvs    map[string]string // type name -> ghost predicate
+	LoadAlso    map[string][]string // package path -> packages to type-check from source as well (their contracts name unexported identifiers)
 }
 
 // GhostField: ghost heap field "ghostfield name Sort [of TypeName]" -- state attached to an object (reference).
@@ -438,7 +456,7 @@ var clauseKeywords = map[string]bool{
 	"func": true, "loop": true, "requires": true, "ensures": true, "invariant": true, "modifies": true,
 	"property": true, "bind": true, "nopanic": true, "assumed": true, "ghost": true, "pure": true,
 	"axiom": true, "lemma": true, "let": true, "decreases": true, "mode": true, "unproved": true,
-	"package": true, "theory": true, "cases": true, "uses": true, "opt": true, "free": true, "end": true, "ghostfield": true, "purefn": true, "assert": true, "typeinv": true, "ghostvar": true, "ghostset": true,
+	"package": true, "theory": true, "cases": true, "uses": true, "opt": true, "free": true, "end": true, "ghostfield": true, "purefn": true, "assert": true, "typeinv": true, "ghostvar": true, "ghostset": true, "loadalso": true,
 }
 
 type rawClause struct {
@@ -602,6 +620,13 @@ func (cs *Contracts) parseFile(path string, pkgPath string) error {
 				return err
 			}
 			cur.Asserts = append(cur.Asserts, &AssertHint{When: when, Anchor: anchor, Clause: c})
+		case "loadalso":
+			// loadalso <import path>: callee contracts of that package mention its unexported identifiers, so it must be
+			// loaded from source (not export data) whenever functions of this package are verified
+			if cs.LoadAlso == nil {
+				cs.LoadAlso = map[string][]string{}
+			}
+			cs.LoadAlso[pkgPath] = append(cs.LoadAlso[pkgPath], strings.Fields(r.text)...)
 		case "ghostvar":
 			// ghostvar name Type : specification-only variable of the function (initially unconstrained)
 			f := strings.Fields(r.text)
@@ -743,6 +768,7 @@ func (cs *Contracts) parseFile(path string, pkgPath string) error {
 			if err != nil {
 				return err
 			}
+			g.PkgPath = pkgPath
 			cs.Ghosts[g.Name] = g
 		case "axiom", "lemma":
 			kv := strings.SplitN(r.text, ":", 2)
